@@ -408,6 +408,7 @@ func pipeline(reps int, dump string) {
 	legacyParseRepeatPart(reps)
 	symbolizeRepeatPart(reps)
 	listRepeatPart(reps)
+	messagesRepeatPart(reps)
 	// fetch completion order: three sources finishing in opposite orders
 	delays := [][]time.Duration{{0, 15 * time.Millisecond, 30 * time.Millisecond}, {30 * time.Millisecond, 15 * time.Millisecond, 0}}
 	for _, f := range [][]string{{"-proto"}, {"-raw"}, {"-top"}} {
@@ -595,6 +596,40 @@ func listRepeatPart(reps int) {
 			first = out
 		} else if !bytes.Equal(first, out) {
 			run.Violate("pipeline", "nondeterministic-output:list", fmt.Sprintf("run %d of -list=dup differs from run 0:\n%s\nvs\n%s", k, clip(first), clip(out)), nil, nil)
+			return
+		}
+	}
+}
+
+// what pprof tells the user is output too (the terminal shows it, the web UI embeds it in every page): a profile in
+// which several numeric tags were recorded with conflicting units gives the same diagnostics, in the same order, every time
+func messagesRepeatPart(reps int) {
+	fn := &profile.Function{ID: 1, Name: "f", SystemName: "f", Filename: "f.c"}
+	l := &profile.Location{ID: 1, Line: []profile.Line{{Function: fn, Line: 1}}}
+	p := &profile.Profile{SampleType: []*profile.ValueType{{Type: "samples", Unit: "count"}}, PeriodType: &profile.ValueType{Type: "cpu", Unit: "ns"}, Period: 1,
+		Function: []*profile.Function{fn}, Location: []*profile.Location{l}}
+	for i, k := range []string{"alpha", "beta", "gamma", "delta", "epsilon"} {
+		p.Sample = append(p.Sample,
+			&profile.Sample{Location: []*profile.Location{l}, Value: []int64{int64(i + 1)}, NumLabel: map[string][]int64{k: {8}}, NumUnit: map[string][]string{k: {"bytes"}}},
+			&profile.Sample{Location: []*profile.Location{l}, Value: []int64{int64(i + 2)}, NumLabel: map[string][]int64{k: {9}}, NumUnit: map[string][]string{k: {"kilobytes"}}})
+	}
+	first := ""
+	for k := 0; k < reps*10; k++ {
+		res := vdrv.Run(vdrv.Opts{Args: []string{"-top", "-output=out", "src"}, Fetch: func(string) (*profile.Profile, error) { return p.Copy(), nil }})
+		if res.Err != nil || res.Panic != nil {
+			run.Violate("pipeline", "messages-repeat-error", fmt.Sprint(res.Err, res.Panic), nil, nil)
+			return
+		}
+		run.Count("messagesrepeat")
+		msgs := strings.Join(res.UIErr, "\n")
+		if k == 0 {
+			if strings.Count(msgs, "also encountered unit") < 2 {
+				run.Infra("messages-repeat: the unit-conflict diagnostics did not appear:\n" + msgs)
+				return
+			}
+			first = msgs
+		} else if msgs != first {
+			run.Violate("pipeline", "nondeterministic-output:messages", fmt.Sprintf("run %d of -top on the same profile prints its diagnostics in another order:\n%s\nvs run 0\n%s", k, msgs, first), nil, nil)
 			return
 		}
 	}
